@@ -726,6 +726,28 @@ where
 }
 
 // =============================================================================
+// VERIFICATION HOOKS (feature "verif-hooks"; off by default)
+// =============================================================================
+
+/// Raw mutable accessors used by the external verification harness for fault injection.
+/// They bypass every invariant on purpose and exist only with the `verif-hooks` feature.
+#[cfg(feature = "verif-hooks")]
+impl<T, U, const D: usize> Vertex<T, U, D>
+where
+    U: DataType,
+{
+    /// Overwrites the coordinates without validation.
+    pub fn verif_set_point_raw(&mut self, point: Point<T, D>) {
+        self.point = point;
+    }
+
+    /// Overwrites the UUID without validation and without touching any mapping.
+    pub const fn verif_set_uuid_raw(&mut self, uuid: Uuid) {
+        self.uuid = uuid;
+    }
+}
+
+// =============================================================================
 // TESTS
 // =============================================================================
 
